@@ -39,7 +39,18 @@ The resulting trees are star trees to which we added one biparition. All branch 
 		alltips := t.AllTipNames()
 		edges := make(chan edgeStruct, 1000)
 
+		// err is shared by the goroutines: the first error is kept
+		var errmux sync.Mutex
+		seterr := func(e error) {
+			errmux.Lock()
+			if err == nil {
+				err = e
+			}
+			errmux.Unlock()
+		}
+
 		go func() {
+			defer close(edges)
 			if deepestedge {
 				// We take the deepest edge and give it to the channel
 				maxdepth := 0
@@ -47,7 +58,7 @@ The resulting trees are star trees to which we added one biparition. All branch 
 				maxid := -1
 				for i, e := range t.Edges() {
 					if d, er := e.TopoDepth(); er != nil {
-						err = er
+						seterr(er)
 						return
 					} else {
 						if d > maxdepth {
@@ -63,13 +74,13 @@ The resulting trees are star trees to which we added one biparition. All branch 
 					edges <- edgeStruct{e, i}
 				}
 			}
-			close(edges)
 		}()
 
 		var wg sync.WaitGroup
 		for cpu := 0; cpu < rootCpus; cpu++ {
 			wg.Add(1)
 			go func() {
+				defer wg.Done()
 				for edgeS := range edges {
 					if !edgeS.e.Right().Tip() {
 						var edgeOut *os.File
@@ -78,12 +89,12 @@ The resulting trees are star trees to which we added one biparition. All branch 
 
 						if outtreefile == "stdout" || outtreefile == "-" {
 							if edgeOut, err2 = openWriteFile("stdout"); err2 != nil {
-								err = err2
+								seterr(err2)
 								return
 							}
 						} else {
 							if edgeOut, err2 = openWriteFile(fmt.Sprintf("%s_%06d.nw", outtreefile, edgeS.idx)); err2 != nil {
-								err = err2
+								seterr(err2)
 								return
 							}
 						}
@@ -95,7 +106,7 @@ The resulting trees are star trees to which we added one biparition. All branch 
 							rightnb := 0
 							for _, n := range alltips {
 								if bitsetindex, err2 = t.TipIndex(n); err2 != nil {
-									err = err2
+									seterr(err2)
 									return
 								}
 								if edgeS.e.TipPresent(uint(bitsetindex)) {
@@ -129,7 +140,6 @@ The resulting trees are star trees to which we added one biparition. All branch 
 						closeWriteFile(edgeOut, outtreefile)
 					}
 				}
-				wg.Done()
 			}()
 		}
 		wg.Wait()
